@@ -1,7 +1,12 @@
 // Verification harness file overlaid into package authip.
 package authip
 
-import "github.com/cornelk/hashmap"
+import (
+	"bytes"
+	"runtime"
+
+	"github.com/cornelk/hashmap"
+)
 
 // the watcher object of the running process: LoopIPWhiteList creates ONE AuthIp and calls parseAuthIp on it for the initial
 // load and for every change event, so whatever that object remembers between loads is part of the behaviour
@@ -9,6 +14,7 @@ var verifWatcher *AuthIp
 
 // VerifReset empties the live whitelist and forgets the watcher object (a fresh process).
 func VerifReset() {
+	VerifQuiesce()
 	IpMap.enable = false
 	IpMap.HashMap = hashmap.HashMap{}
 	verifWatcher = nil
@@ -19,7 +25,9 @@ func VerifReload(dir, file string) error {
 	if verifWatcher == nil || verifWatcher.path != dir || verifWatcher.name != dir+"/"+file {
 		verifWatcher = &AuthIp{path: dir, name: dir + "/" + file}
 	}
-	return verifWatcher.parseAuthIp()
+	err := verifWatcher.parseAuthIp()
+	VerifQuiesce()
+	return err
 }
 
 // VerifSet sets the live whitelist directly (E1 scenarios that are not about reload).
@@ -28,5 +36,26 @@ func VerifSet(enable bool, ips ...string) {
 	IpMap.enable = enable
 	for _, ip := range ips {
 		IpMap.Insert(ip, struct{}{})
+	}
+	VerifQuiesce()
+}
+
+var verifGrow = []byte("created by github.com/cornelk/hashmap.") // matches the goroutine before its first instruction, too
+
+// VerifQuiesce waits until the hashmap's background grow goroutine (started by Insert when the fill rate is exceeded) has
+// finished: it works on IpMap's fields, so replacing the map for the next execution while it runs would crash the worker,
+// and an execution must not depend on how far it got.
+func VerifQuiesce() {
+	buf := make([]byte, 1<<16)
+	for i := 0; i < 1000000; i++ {
+		n := runtime.Stack(buf, true)
+		if n == len(buf) {
+			buf = make([]byte, 2*len(buf))
+			continue
+		}
+		if !bytes.Contains(buf[:n], verifGrow) {
+			return
+		}
+		runtime.Gosched()
 	}
 }
